@@ -53,6 +53,9 @@ static int get_register_xtensa(const char *token, char lo, char up)
       n = (n * 10) + (*s - '0');
       count++;
 
+      // Register numbers are small (and more digits would wrap).
+      if (n > 255) { return -1; }
+
       // Disallow leading 0's on registers.
       if (n == 0 && count > 1) { return -1; }
 
